@@ -79,6 +79,15 @@ G1dCase(e1, e2, i1, i2) ==
    roots |-> <<A0("R")>>]
 G1d(z) == {G1dCase(e1, e2, i1, i2) : e1 \in FieldExprsB, e2 \in FieldExprsB, i1 \in ArgPairsD, i2 \in {<<u8, bool>>, <<u16, u8>>}}
 
+(* G1e: bit sequences whose store and order types are parameters of the enclosing definition *)
+BitsT == P_BitsG(T, U)
+FieldExprsE1 == {BitsT, P_Vec(BitsT), P_Opt(BitsT), P_BitsG(T, P_Order("Lsb0")), P_BitsG(u8, U), P_Tup(<<BitsT, u8>>)}
+FieldExprsE2 == {u32, T, P_Phantom(U), P_Vec(T)}
+ArgPairsE == {<<u8, P_Order("Lsb0")>>, <<u16, P_Order("Msb0")>>, <<u8, P_Order("Msb0")>>}
+G1e(z) == {[fam |-> "G1e",
+            prog |-> Program(<<Struct("R", Mod, <<>>, <<SField("x", P_Adt("D", i1)), SField("y", P_Adt("D", i2))>>), G1bDef(e1, e2, k)>> \o Helpers, <<>>),
+            roots |-> <<A0("R")>>] : e1 \in FieldExprsE1, e2 \in FieldExprsE2, k \in {"struct", "enum"}, i1 \in ArgPairsE, i2 \in ArgPairsE}
+
 (* G1c: definitions in nested modules referring to each other, recursion through Box/Vec/Option<Box> *)
 RecKinds == {"box", "vec", "optbox", "mutual", "generic", "posbox", "shadow"}
 G1cCase(rk, docs) ==
@@ -223,6 +232,8 @@ G2Defs == <<
   V(Struct("FooT2", Mod, <<>>, <<SField("", u8), SField("", u8)>>)),
   V(Struct("FooV", Mod, <<Param("T")>>, <<SField("a", T), SField("b", P_Vec(u32))>>)),
   V(Struct("FooG2", Mod, <<Param("T"), Param("U")>>, <<SField("a", T), SField("b", U)>>)),
+  V(Struct("FooP1", Mod, <<Param("T"), Param("U")>>, <<SField("", P_Vec(T)), SField("", P_Vec(U))>>)),
+  V(Struct("FooP2", Mod, <<Param("T"), Param("U")>>, <<SField("", P_Vec(U)), SField("", P_Vec(T))>>)),
   V(Struct("FooR", Mod, <<>>, <<SField("next", P_Opt(P_Box(A0("FooR")))), SField("v", u8)>>)),
   V(Struct("FooR2", Mod, <<>>, <<SField("next", P_Opt(P_Box(A0("FooR2")))), SField("v", u16)>>)),
   V(Struct("FooA3", Mod, <<Param("C"), Param("U"), Param("W")>>, <<SField("f", P_Assoc("C", "X")), SField("g", U), SField("h", P_Param("W"))>>)),
@@ -264,7 +275,7 @@ G2Prog == Program(G2Defs, <<CfgC1, CfgC2>>)
 G2Members == {P_Adt("FooG", <<u8>>), P_Adt("FooG", <<u16>>), P_Adt("FooG", <<bool>>), A0("FooC8"), A0("FooC16"),
               P_Adt("FooA", <<A0("C1")>>), P_Adt("FooA", <<A0("C2")>>), P_Adt("FooA2", <<A0("C1")>>), P_Adt("FooA2", <<A0("C2")>>),
               A0("FooX"), A0("FooX2"), A0("FooE"), A0("FooE2"), A0("FooE3"), A0("FooE4"), A0("FooT"), A0("FooT2"),
-              P_Adt("FooV", <<u32>>), P_Adt("FooV", <<u8>>), P_Adt("FooG2", <<u8, bool>>), A0("FooR"), A0("FooR2"),
+              P_Adt("FooV", <<u32>>), P_Adt("FooV", <<u8>>), P_Adt("FooG2", <<u8, bool>>), P_Adt("FooP1", <<u8, bool>>), P_Adt("FooP2", <<u8, bool>>), A0("FooR"), A0("FooR2"),
               P_Adt("FooA3", <<A0("C1"), u8, u16>>), P_Adt("FooA3", <<A0("C2"), u8, u16>>)}
 \* the (large) program is referenced by name so that the case records stay small: see ProgOf
 G2Case(roots) == [fam |-> "G2p", pid |-> "G2", prog |-> NoProg, roots |-> roots]
@@ -290,6 +301,7 @@ SubExprs(e) ==   \* proper sub-expressions (positions) of e
                 [] e.k = "res" -> {e.ok, e.err}
                 [] e.k = "btmap" -> {e.key, e.val}
                 [] e.k = "adt" -> RangeOf(e.args)
+                [] e.k = "bitsg" -> {e.store, e.order}
                 [] OTHER -> {}
   IN kids \cup UNION {SubExprs(x) : x \in kids}
 
